@@ -85,9 +85,9 @@ Engine/EvalCacheProofs.vos Engine/EvalCacheProofs.vok Engine/EvalCacheProofs.req
 Engine/Game.vo Engine/Game.glob Engine/Game.v.beautified Engine/Game.required_vo: Engine/Game.v 
 Engine/Game.vio: Engine/Game.v 
 Engine/Game.vos Engine/Game.vok Engine/Game.required_vos: Engine/Game.v 
-Engine/GameRefine.vo Engine/GameRefine.glob Engine/GameRefine.v.beautified Engine/GameRefine.required_vo: Engine/GameRefine.v Chess/Rules.vo Chess/History.vo Chess/HistoryKeys.vo Chess/ValidStep.vo Chess/GameInv.vo Engine/PositionRep.vo Engine/RepAbs.vo Engine/RepRefine.vo Engine/RepRefineLegal.vo Engine/KeyScratch.vo Engine/KeyScratchMove.vo Engine/KeyScratchInit.vo Engine/HistoryRefine.vo Engine/PolyglotProofs.vo Engine/RepProofs.vo Engine/RepRoundTrip.vo Engine/RepRoundTripLegal.vo Engine/Material.vo
-Engine/GameRefine.vio: Engine/GameRefine.v Chess/Rules.vio Chess/History.vio Chess/HistoryKeys.vio Chess/ValidStep.vio Chess/GameInv.vio Engine/PositionRep.vio Engine/RepAbs.vio Engine/RepRefine.vio Engine/RepRefineLegal.vio Engine/KeyScratch.vio Engine/KeyScratchMove.vio Engine/KeyScratchInit.vio Engine/HistoryRefine.vio Engine/PolyglotProofs.vio Engine/RepProofs.vio Engine/RepRoundTrip.vio Engine/RepRoundTripLegal.vio Engine/Material.vio
-Engine/GameRefine.vos Engine/GameRefine.vok Engine/GameRefine.required_vos: Engine/GameRefine.v Chess/Rules.vos Chess/History.vos Chess/HistoryKeys.vos Chess/ValidStep.vos Chess/GameInv.vos Engine/PositionRep.vos Engine/RepAbs.vos Engine/RepRefine.vos Engine/RepRefineLegal.vos Engine/KeyScratch.vos Engine/KeyScratchMove.vos Engine/KeyScratchInit.vos Engine/HistoryRefine.vos Engine/PolyglotProofs.vos Engine/RepProofs.vos Engine/RepRoundTrip.vos Engine/RepRoundTripLegal.vos Engine/Material.vos
+Engine/GameRefine.vo Engine/GameRefine.glob Engine/GameRefine.v.beautified Engine/GameRefine.required_vo: Engine/GameRefine.v Chess/Rules.vo Chess/History.vo Chess/HistoryKeys.vo Chess/ValidStep.vo Chess/GameInv.vo Engine/PositionRep.vo Engine/RepAbs.vo Engine/RepRefine.vo Engine/RepRefineLegal.vo Engine/KeyScratch.vo Engine/KeyScratchMove.vo Engine/KeyScratchInit.vo Engine/HistoryRefine.vo Engine/PolyglotProofs.vo Engine/RepProofs.vo Engine/RepRoundTrip.vo Engine/RepRoundTripLegal.vo Engine/Material.vo Engine/UndoInv.vo
+Engine/GameRefine.vio: Engine/GameRefine.v Chess/Rules.vio Chess/History.vio Chess/HistoryKeys.vio Chess/ValidStep.vio Chess/GameInv.vio Engine/PositionRep.vio Engine/RepAbs.vio Engine/RepRefine.vio Engine/RepRefineLegal.vio Engine/KeyScratch.vio Engine/KeyScratchMove.vio Engine/KeyScratchInit.vio Engine/HistoryRefine.vio Engine/PolyglotProofs.vio Engine/RepProofs.vio Engine/RepRoundTrip.vio Engine/RepRoundTripLegal.vio Engine/Material.vio Engine/UndoInv.vio
+Engine/GameRefine.vos Engine/GameRefine.vok Engine/GameRefine.required_vos: Engine/GameRefine.v Chess/Rules.vos Chess/History.vos Chess/HistoryKeys.vos Chess/ValidStep.vos Chess/GameInv.vos Engine/PositionRep.vos Engine/RepAbs.vos Engine/RepRefine.vos Engine/RepRefineLegal.vos Engine/KeyScratch.vos Engine/KeyScratchMove.vos Engine/KeyScratchInit.vos Engine/HistoryRefine.vos Engine/PolyglotProofs.vos Engine/RepProofs.vos Engine/RepRoundTrip.vos Engine/RepRoundTripLegal.vos Engine/Material.vos Engine/UndoInv.vos
 Engine/GoParse.vo Engine/GoParse.glob Engine/GoParse.v.beautified Engine/GoParse.required_vo: Engine/GoParse.v 
 Engine/GoParse.vio: Engine/GoParse.v 
 Engine/GoParse.vos Engine/GoParse.vok Engine/GoParse.required_vos: Engine/GoParse.v 
@@ -187,6 +187,9 @@ Engine/UciSession.vos Engine/UciSession.vok Engine/UciSession.required_vos: Engi
 Engine/UciSessionText.vo Engine/UciSessionText.glob Engine/UciSessionText.v.beautified Engine/UciSessionText.required_vo: Engine/UciSessionText.v Chess/Rules.vo Chess/Fen.vo Chess/TextProofs.vo Chess/FenProofs.vo Engine/UciSession.vo
 Engine/UciSessionText.vio: Engine/UciSessionText.v Chess/Rules.vio Chess/Fen.vio Chess/TextProofs.vio Chess/FenProofs.vio Engine/UciSession.vio
 Engine/UciSessionText.vos Engine/UciSessionText.vok Engine/UciSessionText.required_vos: Engine/UciSessionText.v Chess/Rules.vos Chess/Fen.vos Chess/TextProofs.vos Chess/FenProofs.vos Engine/UciSession.vos
+Engine/UndoInv.vo Engine/UndoInv.glob Engine/UndoInv.v.beautified Engine/UndoInv.required_vo: Engine/UndoInv.v Engine/PositionRep.vo Engine/EncodingProofs.vo Engine/RepProofs.vo Engine/RepRoundTrip.vo Engine/RepRoundTripNormal.vo Engine/RepAbs.vo Engine/RepRefine.vo Engine/RepRefineLegal.vo Engine/RepRoundTripLegal.vo Engine/KeyScratch.vo Engine/KeyScratchMove.vo
+Engine/UndoInv.vio: Engine/UndoInv.v Engine/PositionRep.vio Engine/EncodingProofs.vio Engine/RepProofs.vio Engine/RepRoundTrip.vio Engine/RepRoundTripNormal.vio Engine/RepAbs.vio Engine/RepRefine.vio Engine/RepRefineLegal.vio Engine/RepRoundTripLegal.vio Engine/KeyScratch.vio Engine/KeyScratchMove.vio
+Engine/UndoInv.vos Engine/UndoInv.vok Engine/UndoInv.required_vos: Engine/UndoInv.v Engine/PositionRep.vos Engine/EncodingProofs.vos Engine/RepProofs.vos Engine/RepRoundTrip.vos Engine/RepRoundTripNormal.vos Engine/RepAbs.vos Engine/RepRefine.vos Engine/RepRefineLegal.vos Engine/RepRoundTripLegal.vos Engine/KeyScratch.vos Engine/KeyScratchMove.vos
 Gen/BitbaseDump.vo Gen/BitbaseDump.glob Gen/BitbaseDump.v.beautified Gen/BitbaseDump.required_vo: Gen/BitbaseDump.v 
 Gen/BitbaseDump.vio: Gen/BitbaseDump.v 
 Gen/BitbaseDump.vos Gen/BitbaseDump.vok Gen/BitbaseDump.required_vos: Gen/BitbaseDump.v 
@@ -280,9 +283,9 @@ Props/Properties_C01.vos Props/Properties_C01.vok Props/Properties_C01.required_
 Props/Properties_C02.vo Props/Properties_C02.glob Props/Properties_C02.v.beautified Props/Properties_C02.required_vo: Props/Properties_C02.v Chess/Rules.vo Engine/PositionRep.vo Engine/RepAbs.vo Engine/RepRefine.vo Engine/RepRefineLegal.vo Engine/RepRoundTripNormal.vo Base/NIter.vo Chess/History.vo Chess/HistoryKeys.vo Chess/ValidStep.vo Chess/GameInv.vo Engine/KeyScratchInit.vo Engine/HistoryRefine.vo Engine/GameRefine.vo Chess/Fen.vo Engine/UciSession.vo Engine/UciSessionText.vo
 Props/Properties_C02.vio: Props/Properties_C02.v Chess/Rules.vio Engine/PositionRep.vio Engine/RepAbs.vio Engine/RepRefine.vio Engine/RepRefineLegal.vio Engine/RepRoundTripNormal.vio Base/NIter.vio Chess/History.vio Chess/HistoryKeys.vio Chess/ValidStep.vio Chess/GameInv.vio Engine/KeyScratchInit.vio Engine/HistoryRefine.vio Engine/GameRefine.vio Chess/Fen.vio Engine/UciSession.vio Engine/UciSessionText.vio
 Props/Properties_C02.vos Props/Properties_C02.vok Props/Properties_C02.required_vos: Props/Properties_C02.v Chess/Rules.vos Engine/PositionRep.vos Engine/RepAbs.vos Engine/RepRefine.vos Engine/RepRefineLegal.vos Engine/RepRoundTripNormal.vos Base/NIter.vos Chess/History.vos Chess/HistoryKeys.vos Chess/ValidStep.vos Chess/GameInv.vos Engine/KeyScratchInit.vos Engine/HistoryRefine.vos Engine/GameRefine.vos Chess/Fen.vos Engine/UciSession.vos Engine/UciSessionText.vos
-Props/Properties_C03.vo Props/Properties_C03.glob Props/Properties_C03.v.beautified Props/Properties_C03.required_vo: Props/Properties_C03.v Engine/PositionRep.vo Engine/RepAbs.vo Engine/RepProofs.vo Engine/RepRoundTrip.vo Engine/RepRoundTripNormal.vo Engine/Encoding.vo Engine/RepRefine.vo Engine/RepRefineLegal.vo Engine/RepRoundTripLegal.vo Chess/Rules.vo Chess/ValidStep.vo Chess/GameInv.vo Engine/KeyScratchInit.vo Engine/GameRefine.vo
-Props/Properties_C03.vio: Props/Properties_C03.v Engine/PositionRep.vio Engine/RepAbs.vio Engine/RepProofs.vio Engine/RepRoundTrip.vio Engine/RepRoundTripNormal.vio Engine/Encoding.vio Engine/RepRefine.vio Engine/RepRefineLegal.vio Engine/RepRoundTripLegal.vio Chess/Rules.vio Chess/ValidStep.vio Chess/GameInv.vio Engine/KeyScratchInit.vio Engine/GameRefine.vio
-Props/Properties_C03.vos Props/Properties_C03.vok Props/Properties_C03.required_vos: Props/Properties_C03.v Engine/PositionRep.vos Engine/RepAbs.vos Engine/RepProofs.vos Engine/RepRoundTrip.vos Engine/RepRoundTripNormal.vos Engine/Encoding.vos Engine/RepRefine.vos Engine/RepRefineLegal.vos Engine/RepRoundTripLegal.vos Chess/Rules.vos Chess/ValidStep.vos Chess/GameInv.vos Engine/KeyScratchInit.vos Engine/GameRefine.vos
+Props/Properties_C03.vo Props/Properties_C03.glob Props/Properties_C03.v.beautified Props/Properties_C03.required_vo: Props/Properties_C03.v Engine/PositionRep.vo Engine/RepAbs.vo Engine/RepProofs.vo Engine/RepRoundTrip.vo Engine/RepRoundTripNormal.vo Engine/Encoding.vo Engine/RepRefine.vo Engine/RepRefineLegal.vo Engine/RepRoundTripLegal.vo Chess/Rules.vo Chess/ValidStep.vo Chess/GameInv.vo Engine/KeyScratchInit.vo Engine/GameRefine.vo Engine/KeyScratch.vo Engine/KeyScratchMove.vo Engine/UndoInv.vo
+Props/Properties_C03.vio: Props/Properties_C03.v Engine/PositionRep.vio Engine/RepAbs.vio Engine/RepProofs.vio Engine/RepRoundTrip.vio Engine/RepRoundTripNormal.vio Engine/Encoding.vio Engine/RepRefine.vio Engine/RepRefineLegal.vio Engine/RepRoundTripLegal.vio Chess/Rules.vio Chess/ValidStep.vio Chess/GameInv.vio Engine/KeyScratchInit.vio Engine/GameRefine.vio Engine/KeyScratch.vio Engine/KeyScratchMove.vio Engine/UndoInv.vio
+Props/Properties_C03.vos Props/Properties_C03.vok Props/Properties_C03.required_vos: Props/Properties_C03.v Engine/PositionRep.vos Engine/RepAbs.vos Engine/RepProofs.vos Engine/RepRoundTrip.vos Engine/RepRoundTripNormal.vos Engine/Encoding.vos Engine/RepRefine.vos Engine/RepRefineLegal.vos Engine/RepRoundTripLegal.vos Chess/Rules.vos Chess/ValidStep.vos Chess/GameInv.vos Engine/KeyScratchInit.vos Engine/GameRefine.vos Engine/KeyScratch.vos Engine/KeyScratchMove.vos Engine/UndoInv.vos
 Props/Properties_C04.vo Props/Properties_C04.glob Props/Properties_C04.v.beautified Props/Properties_C04.required_vo: Props/Properties_C04.v Engine/PositionRep.vo Engine/RepAbs.vo Engine/RepProofs.vo Engine/RepRefine.vo Engine/RepRefineLegal.vo Engine/RepRoundTrip.vo Engine/KeyScratch.vo Engine/KeyScratchMove.vo Engine/KeyScratchInit.vo Chess/Rules.vo Chess/History.vo Chess/HistoryKeys.vo Chess/ValidStep.vo Chess/GameInv.vo Engine/HistoryRefine.vo Engine/GameRefine.vo
 Props/Properties_C04.vio: Props/Properties_C04.v Engine/PositionRep.vio Engine/RepAbs.vio Engine/RepProofs.vio Engine/RepRefine.vio Engine/RepRefineLegal.vio Engine/RepRoundTrip.vio Engine/KeyScratch.vio Engine/KeyScratchMove.vio Engine/KeyScratchInit.vio Chess/Rules.vio Chess/History.vio Chess/HistoryKeys.vio Chess/ValidStep.vio Chess/GameInv.vio Engine/HistoryRefine.vio Engine/GameRefine.vio
 Props/Properties_C04.vos Props/Properties_C04.vok Props/Properties_C04.required_vos: Props/Properties_C04.v Engine/PositionRep.vos Engine/RepAbs.vos Engine/RepProofs.vos Engine/RepRefine.vos Engine/RepRefineLegal.vos Engine/RepRoundTrip.vos Engine/KeyScratch.vos Engine/KeyScratchMove.vos Engine/KeyScratchInit.vos Chess/Rules.vos Chess/History.vos Chess/HistoryKeys.vos Chess/ValidStep.vos Chess/GameInv.vos Engine/HistoryRefine.vos Engine/GameRefine.vos
